@@ -78,17 +78,17 @@ type Ctx struct {
 	Resume  string // skip every case up to and including this id
 	Dead    time.Time
 
-	out      *bufio.Writer
-	idx      int64
-	evals    int64
-	classes  map[uint64]struct{}
-	counters map[string]int64
-	samples  int
-	capped   bool
-	notes    []string
-	announce bool
-	violKeys map[string]int
-	lastHB   time.Time
+	out        *bufio.Writer
+	idx        int64
+	evals      int64
+	classes    map[uint64]struct{}
+	counters   map[string]int64
+	samples    int
+	capped     bool
+	notes      []string
+	announce   bool
+	violKeys   map[string]int
+	lastHB     time.Time
 	nextSample int64
 }
 
